@@ -344,11 +344,28 @@ def replay(rep, data, pa):
     units = [[tuple(u) for u in us] for us in data["units"]]
     cont = gen.build_continuum(pa, units)
     dissim = gen.make_dissim(pa, tuple(data["dissim"]))
-    try:
-        fast = ac.run_forked(20, cont.get_fast_alignment, dissim, data["window"])
-    except ac.Watchdog:
-        print("  does not terminate within 20 s")
-        return False
+    w = data["window"]
+    if isinstance(w, str):
+        # the size fast-mode gamma measures for itself: measured again, checked against the range the theorems cover, then the job is run
+        from pygamma_agreement.continuum import _compute_fast_alignment_job
+        cont.measure_best_window_size(dissim)
+        bws = cont.best_window_size
+        mx = max(len(u) for u in units)
+        print("  measured window size: %s" % (bws,))
+        if not (bws == np.inf or (float(bws) == int(bws) and 1 <= int(bws) <= max(2, mx) - 1)):
+            return False
+        try:
+            fast = ac.run_forked(120, _compute_fast_alignment_job, dissim, cont)
+        except ac.Watchdog:
+            print("  does not terminate within 120 s")
+            return False
+        fast.continuum = cont
+    else:
+        try:
+            fast = ac.run_forked(20, cont.get_fast_alignment, dissim, w)
+        except ac.Watchdog:
+            print("  does not terminate within 20 s")
+            return False
     I = Inst(cont, dissim)
     tuples = [I.index_tuple(ua.n_tuple) for ua in fast.unitary_alignments]
     out = run_model([ac.sizes_line(3, I, tuples)])[0]
